@@ -1184,6 +1184,8 @@ class IH5StoreEngine:
         shadows = {i: T.Shadow() for i in recs}
         vgen = T.ValueGen(rng["values"])
         dgen = {i: T.DataGen(g, exotic=exotic, max_nodes=max_nodes, vgen=vgen) for i in recs}
+        for dg in dgen.values():
+            dg.copy_variants = profile in ("overlay", "merge")
         # life-cycle shadow (approximate)
         st = {i: {"open": False, "exists": False, "writable": False, "ro": False, "committed_last": False, "n": 0} for i in recs}
         ops = []
